@@ -62,7 +62,7 @@ def gen_program(r, maxnodes=8, results=(), allow=None, big=False, e2e=False, res
             if kk < 6:
                 add("const", "const %d %s" % (nshard, rows(r, 150 if big else 20)), nshard)
             elif kk < 9:
-                add("reader", "reader %d %d %s" % (nshard, r.rng(1, 5), rows(r, 150 if big else 20)), nshard)
+                add("reader", "reader %d %d %s" % (nshard, r.rng(1, 5) + (10 if r.chance(1, 3) else 0), rows(r, 150 if big else 20)), nshard)
             else:
                 add("lines", "lines %d %d" % (nshard, r.rng(0, 9)), nshard)
             continue
